@@ -149,8 +149,11 @@ type Node struct {
 	Crashed   bool
 	Faulty    bool // was restarted with amnesia in this run (counts as faulty)
 	Restarts  int
-	Silent    bool          // down from the start, never comes back
-	Synced    int           // blocks adopted through ledger synchronisation
+	Silent    bool // down from the start, never comes back
+	Synced    int  // blocks adopted through ledger synchronisation
+	Timeouts  int  // timer expiries delivered so far (timed mode)
+	bcSeen    int
+	bcCount   int
 	Offset    time.Duration // per-node clock offset
 
 	// application: ledger
@@ -371,6 +374,7 @@ func (n *Node) cbBroadcast(p dbft.ConsensusPayload[vt.H]) {
 	pp := p.(*vt.Payload)
 	n.ev(EvBroadcast, pp, "")
 	n.Own[pp.Ht] = append(n.Own[pp.Ht], pp)
+	n.bcCount++
 	for _, m := range n.W.Mons {
 		if m.Broadcast != nil {
 			m.Broadcast(n, pp)
@@ -622,3 +626,6 @@ func (n *Node) gcHistory() {
 	}
 	n.Requested = n.Requested[:0]
 }
+
+// Broadcasts is the number of payloads the node has broadcast so far.
+func (n *Node) Broadcasts() int { return n.bcCount }
